@@ -44,16 +44,18 @@ fn len_class(n: usize) -> &'static str {
 fn record_ops(r: &Record) -> usize {
     let mut n = r.data().len();
     n += r.compressed() as usize;
-    #[cfg(feature = "full")]
+    #[cfg(feature = "f-bzip2")]
     {
         if let Ok(d) = r.decompress() {
             n += d.data().len();
             n += d.compressed() as usize;
+            #[cfg(feature = "full")]
             let _ = d.messages();
             let _ = debug_all(&d);
         }
-        let _ = r.messages().map(|m| m.len());
     }
+    #[cfg(feature = "full")]
+    let _ = r.messages().map(|m| m.len());
     n += debug_all(r);
     n
 }
@@ -83,7 +85,7 @@ pub fn check_bytes(ctx: &Ctx, bytes: &[u8], origin: &str, st: &mut Stats) -> usi
     };
     let file = File::new(owned(bytes));
     one("File::records", &mut || file.records().len());
-    #[cfg(feature = "full")]
+    #[cfg(feature = "f-serde")]
     one("File::header", &mut || file.header().is_ok() as usize);
     #[cfg(feature = "full")]
     one("File::scan", &mut || file.scan().map(|s| s.sweeps().len()).unwrap_or(0));
@@ -92,7 +94,7 @@ pub fn check_bytes(ctx: &Ctx, bytes: &[u8], origin: &str, st: &mut Stats) -> usi
     let rec = Record::new(owned(bytes));
     one("Record::data", &mut || rec.data().len());
     one("Record::compressed", &mut || rec.compressed() as usize);
-    #[cfg(feature = "full")]
+    #[cfg(feature = "f-bzip2")]
     one("Record::decompress", &mut || rec.decompress().map(|r| r.data().len()).unwrap_or(0));
     #[cfg(feature = "full")]
     one("Record::messages", &mut || rec.messages().map(|m| m.len()).unwrap_or(0));
